@@ -1,7 +1,7 @@
-// Command h is the Go side of /verif's correspondence checks and direct
-// property evaluations.  Usage: h <property> -seed N -tier quick|thorough -out DIR
+// Package hlib is the shared part of the Go side of /verif's correspondence checks and direct
+// property evaluations.  Usage of each binary (one per property, harness/cXX): cXX -seed N -tier quick|thorough -out DIR
 //
-// Every property registers a function in registry (one file per property).  The
+// Every property is a main package harness/cXX calling hlib.Main("cXX", fn).  The
 // function runs the implementation under test (/repo, built with -tags verif) on
 // generated cases and writes, into the out directory:
 //
@@ -10,7 +10,7 @@
 //	            canonical form the model runner prints after "I "
 //	direct.json the result of evaluating the property directly on the
 //	            implementation (violations with replay data, counters, samples)
-package main
+package hlib
 
 import (
 	"bufio"
@@ -19,7 +19,6 @@ import (
 	"fmt"
 	"os"
 	"path/filepath"
-	"sort"
 )
 
 // Violation is one failing input found by direct evaluation of the property.
@@ -42,6 +41,7 @@ type Direct struct {
 
 // Ctx is handed to each property function.
 type Ctx struct {
+	ID     string
 	Seed   int64
 	Tier   string
 	OutDir string
@@ -95,29 +95,13 @@ func (c *Ctx) Violate(key, desc string, replay any) {
 	}
 }
 
-var registry = map[string]func(*Ctx){}
-
-func main() {
-	if len(os.Args) < 2 {
-		ids := []string{}
-		for k := range registry {
-			ids = append(ids, k)
-		}
-		sort.Strings(ids)
-		fmt.Fprintln(os.Stderr, "usage: h <property> [-seed N] [-tier quick|thorough] [-out DIR]; properties:", ids)
-		os.Exit(2)
-	}
-	id := os.Args[1]
-	fs := flag.NewFlagSet("h", flag.ExitOnError)
+// Main is called by each property's main package with its check function.
+func Main(id string, fn func(*Ctx)) {
+	fs := flag.NewFlagSet(id, flag.ExitOnError)
 	seed := fs.Int64("seed", 1, "PRNG seed")
 	tier := fs.String("tier", "quick", "quick|thorough")
 	out := fs.String("out", ".", "output directory")
-	fs.Parse(os.Args[2:])
-	fn, ok := registry[id]
-	if !ok {
-		fmt.Fprintln(os.Stderr, "unknown property", id)
-		os.Exit(2)
-	}
+	fs.Parse(os.Args[1:])
 	if err := os.MkdirAll(*out, 0o755); err != nil {
 		panic(err)
 	}
@@ -129,7 +113,7 @@ func main() {
 	if err != nil {
 		panic(err)
 	}
-	ctx := &Ctx{Seed: *seed, Tier: *tier, OutDir: *out, Rng: NewRand(uint64(*seed)),
+	ctx := &Ctx{ID: id, Seed: *seed, Tier: *tier, OutDir: *out, Rng: NewRand(uint64(*seed)),
 		cases: bufio.NewWriterSize(cf, 1<<20), impl: bufio.NewWriterSize(imf, 1<<20), seen: map[string]bool{}}
 	ctx.D.Violations = []Violation{}
 	ctx.D.Samples = []any{}
